@@ -135,3 +135,173 @@ package log
 //@   loop#2 invariant 0 <= i && i <= len(s) && count <= limit
 //@   assert@return#2 : runes_upto(s, i) == limit
 //@   assert@return#3 : count == runes_upto(s, len(s)) && count <= limit
+
+// ======================================================================== C06 the record queue of the batch processor
+// A queue is a fixed cyclic list of q.cap ring nodes. Ghost view: rnode(q, i) is the i-th node (0 <= i < q.cap) and
+// rpos(n) the position of node n; both are uninterpreted - a precondition wf(q) says that SOME such numbering exists,
+// and every obligation is proved for all numberings. The abstract content of the queue is the sequence
+//   content(q, 0), ..., content(q, q.len-1)      (oldest first),   content(q, i) = Value of the node i steps after q.read.
+//@ spec rnode(q *queue, i int) *ring
+//@ spec rpos(n *ring) int
+//@ spec wrap(c int, x int) int = ite(x >= c, x - c, x)
+//@ spec wf(q *queue) bool = q.cap >= 1 && 0 <= q.len && q.len <= q.cap && (forall i in 0 .. q.cap : rnode(q, i) != nil && rpos(rnode(q, i)) == i && rnode(q, i).next == rnode(q, wrap(q.cap, i + 1))) && 0 <= rpos(q.read) && rpos(q.read) < q.cap && rnode(q, rpos(q.read)) == q.read && 0 <= rpos(q.write) && rpos(q.write) < q.cap && rnode(q, rpos(q.write)) == q.write && rpos(q.write) == wrap(q.cap, rpos(q.read) + q.len)
+//@ spec content(q *queue, i int) Record = rnode(q, wrap(q.cap, rpos(q.read) + i)).Value
+
+//@ guarded_by queue.Mutex: len, read, write
+// wf is the invariant of the queue's lock: whoever acquires it finds a well-formed queue and must leave one
+//@ lockinv queue.Mutex: wf(self)
+
+//@ func (r *ring) Next() (n *ring)
+//@   prop C06
+//@   requires r != nil && r.next != nil
+//@   ensures n == r.next
+//@   modifies
+
+// Enqueue: appended at the end; when full, the OLDEST record is dropped (and counted) and all others keep their order
+//@ func (q *queue) Enqueue(r Record) (n int)
+//@   prop C06
+//@   acquires q.Mutex
+//@   overflow assumed
+//@   unchecked frame the written ring node is named through the ghost numbering
+//@   requires q != nil
+//@   ensures q.cap == old(q.cap) && n == q.len
+//@   ensures old(q.len) < q.cap ==> q.len == old(q.len) + 1 && q.dropped.v == old(q.dropped.v) && content(q, old(q.len)) == r && (forall i in 0 .. old(q.len) : content(q, i) == old(content(q, i)))
+//@   ensures old(q.len) == q.cap ==> q.len == q.cap && q.dropped.v == old(q.dropped.v) + 1
+//@   ensures old(q.len) == q.cap ==> content(q, q.cap - 1) == r
+//@   ensures old(q.len) == q.cap ==> (forall i in 0 .. q.cap - 1 : content(q, i) == old(content(q, i + 1)))
+
+//@ func (q *queue) Len() (n int)
+//@   prop C06
+//@   acquires q.Mutex
+//@   requires q != nil
+//@   ensures n == q.len
+//@   modifies
+
+// TryDequeue: the oldest min(len(buf), q.len) records are copied to buf in order and offered to write as ONE batch that is
+// never longer than buf; they leave the queue only if write accepted them, otherwise the queue is exactly as before
+//@ func (q *queue) TryDequeue(buf []Record, write func([]Record) bool) (n int)
+//@   prop C06
+//@   acquires q.Mutex
+//@   overflow assumed
+//@   unchecked frame buf is written; ring nodes are only read
+//@   requires q != nil && write != nil
+//@   ensures q.cap == old(q.cap) && n == q.len
+//@   ensures forall i in 0 .. min(len(buf), old(q.len)) : buf[i] == old(content(q, i))
+//@   ensures (q.len == old(q.len) - min(len(buf), old(q.len)) && (forall i in 0 .. q.len : content(q, i) == old(content(q, i + min(len(buf), q.len))))) || (q.len == old(q.len) && q.read == old(q.read) && (forall i in 0 .. q.len : content(q, i) == old(content(q, i))))
+//@   assert@call write#1 : len($arg0) == min(len(buf), old(q.len)) && len($arg0) <= len(buf) && samearray($arg0, buf) && q.len == old(q.len)
+//@   assert@store len#1 : write(buf[:n]) && n == min(len(buf), old(q.len))
+//@   assert@store read#2 : !write(buf[:n]) && $val == old(q.read)
+//@   loop#1 invariant 0 <= i && i <= n && n == min(len(buf), q.len) && q.len == old(q.len) && q.cap == old(q.cap) && q.write == old(q.write) && origRead == old(q.read)
+//@   loop#1 invariant q.read == rnode(q, wrap(q.cap, rpos(old(q.read)) + i))
+//@   loop#1 invariant forall j in 0 .. i : buf[j] == old(content(q, j))
+//@   loop#1 invariant forall j in 0 .. q.cap : rnode(q, j) != nil && rpos(rnode(q, j)) == j && rnode(q, j).next == rnode(q, wrap(q.cap, j + 1)) && rnode(q, j).Value == old(rnode(q, j).Value)
+
+// Flush: everything, oldest first; the queue is empty afterwards
+//@ func (q *queue) Flush() (out []Record)
+//@   prop C06
+//@   acquires q.Mutex
+//@   overflow assumed
+//@   unchecked frame ring nodes are only read
+//@   requires q != nil
+//@   ensures q.len == 0 && q.cap == old(q.cap) && len(out) == old(q.len) && fresh(out)
+//@   ensures forall i in 0 .. len(out) : out[i] == old(content(q, i))
+//@   loop#1 invariant 0 <= $k && len(out) == old(q.len) && fresh(out) && q.len == old(q.len) && q.cap == old(q.cap) && q.write == old(q.write)
+//@   loop#1 invariant q.read == rnode(q, wrap(q.cap, rpos(old(q.read)) + $k))
+//@   loop#1 invariant forall j in 0 .. $k : out[j] == old(content(q, j))
+//@   loop#1 invariant forall j in 0 .. q.cap : rnode(q, j) != nil && rpos(rnode(q, j)) == j && rnode(q, j).next == rnode(q, wrap(q.cap, j + 1)) && rnode(q, j).Value == old(rnode(q, j).Value)
+
+// chunkExporter: every export handed on is a non-empty piece of at most c.size records, the pieces are consecutive
+// (each starts where the previous one ended) and after a complete run they cover the whole input
+//@ ghost var chunked int
+//@ func (c chunkExporter) Export(ctx context.Context, records []Record) (err error)
+//@   prop C06
+//@   overflow assumed
+//@   unchecked frame third-party exporter
+//@   requires c.size >= 1 && c.Exporter != nil
+//@   ghost@entry : chunked = 0
+//@   assert@call Export#* : i == chunked && 0 <= i && i < j && j <= len(records) && j - i <= c.size && len($arg2) == j - i && samearray($arg2, records) && (j == len(records) || j - i == c.size)
+//@   ghost@call Export#* : chunked = j
+//@   assert@return#2 : chunked == len(records)
+//@   loop#1 invariant n == len(records) && 0 <= i && j == min(i + c.size, n) && chunked == min(i, n)
+//@   loop#1 modifies ghost chunked
+
+// Clone: the copy shares no attribute storage with the original
+//@ func (r *Record) Clone() (res Record)
+//@   prop C06
+//@   requires r != nil
+//@   ensures len(res.back) == len(r.back) && (forall i in 0 .. len(r.back) : res.back[i] == r.back[i]) && (len(r.back) > 0 ==> fresh(res.back)) && res.nFront == r.nFront && res.front == r.front
+//@   modifies
+
+// ---- bufferExporter: the input channel is sent to only with inputMu held and only while not stopped, and closed only
+// with inputMu held, after stopped was set, by the one call that set it. (These are the premises of "no send on a closed
+// channel"; the conclusion itself is an argument over all interleavings and is not mechanised.)
+//@ guarded_by bufferExporter.inputMu: input
+//@ func (e *bufferExporter) enqueue(ctx context.Context, records []Record, rCh chan<- error) (err error)
+//@   prop C06
+//@   acquires e.inputMu
+//@   unchecked frame channel operations
+//@   requires e != nil && ctx != nil
+//@   assert@call send#* : holds(e.inputMu) && e.stopped.v == 0 && $arg0 == e.input && samearray($arg1.records, records) && len($arg1.records) == len(records)
+//@ func (e *bufferExporter) EnqueueExport(records []Record) (ok bool)
+//@   prop C06
+//@   acquires e.inputMu
+//@   unchecked frame channel operations
+//@   requires e != nil
+//@   assert@call send#* : holds(e.inputMu) && e.stopped.v == 0 && $arg0 == e.input && samearray($arg1.records, records) && len($arg1.records) == len(records)
+//@ func (e *bufferExporter) Shutdown(ctx context.Context) (err error)
+//@   prop C06
+//@   acquires e.inputMu
+//@   unchecked frame channel operations, third-party exporter
+//@   requires e != nil && ctx != nil && e.Exporter != nil
+//@   ensures e.stopped.v != 0
+//@   assert@call close#* : holds(e.inputMu) && e.stopped.v != 0 && old(e.stopped.v) == 0 && $arg0 == e.input
+//@ func (e *bufferExporter) Export(ctx context.Context, records []Record) (err error)
+//@   prop -
+//@   trusted "synchronous export through the buffer (channels): only its no-write frame is assumed"
+//@ func (e *bufferExporter) ForceFlush(ctx context.Context) (err error)
+//@   prop -
+//@   trusted "flush through the buffer (channels): only its no-write frame is assumed"
+//@ func (e *bufferExporter) Ready() (ok bool)
+//@   prop -
+//@   trusted "channel length/capacity: only its no-write frame is assumed"
+
+// ---- BatchProcessor
+// OnEmit: nothing is enqueued once the processor is stopped; what is enqueued is a clone that shares no attribute storage
+//@ func (b *BatchProcessor) OnEmit(ctx context.Context, r *Record) (err error)
+//@   prop C06
+//@   unchecked frame the queue is written through its own contract
+//@   requires b != nil && r != nil
+//@   ensures err == nil
+//@   assert@call queue.Enqueue#* : b.stopped.v == 0 && $arg0 == b.q
+//@   assert@call queue.Enqueue#* : len($arg1.back) == len(r.back)
+//@   assert@call queue.Enqueue#* : len(r.back) > 0 ==> !samearray($arg1.back, r.back)
+//@   assert@call queue.Enqueue#* : forall i in 0 .. len(r.back) : $arg1.back[i] == r.back[i]
+
+// Shutdown: only the call that flips `stopped` flushes; the final export is the whole queue content, oldest first, handed
+// to the exporter chain (which chunks it)
+//@ func (b *BatchProcessor) Shutdown(ctx context.Context) (err error)
+//@   prop C06
+//@   unchecked frame channel operations, exporter chain
+//@   requires b != nil && ctx != nil && b.exporter != nil && b.exporter.Exporter != nil
+//@   ensures b.stopped.v != 0
+//@   assert@call queue.Flush#* : old(b.stopped.v) == 0 && b.stopped.v != 0
+//@   assert@call bufferExporter.Export#* : old(b.stopped.v) == 0 && len($arg2) == old(b.q.len)
+
+// ForceFlush: a stopped processor exports nothing
+//@ func (b *BatchProcessor) ForceFlush(ctx context.Context) (err error)
+//@   prop C06
+//@   unchecked frame,no-panic closure-driven flush loop
+//@   requires b != nil && ctx != nil && b.exporter != nil
+//@   assert@call bufferExporter.ForceFlush#* : old(b.stopped.v) == 0 && b.q != nil
+//@   loop#1 invariant b.stopped.v == old(b.stopped.v)
+//@   loop#1 invariant b.q == old(b.q)
+//@   loop#1 invariant b.q != nil
+
+// newQueue: ASSUMED to establish the lock invariant (a cyclic list of `size` distinct nodes). Not proved: wf is stated over an
+// uninterpreted numbering of the nodes, and establishing it needs a witness for that numbering, which the contract
+// language cannot give. Listed under assumptions.
+//@ func newQueue(size int) (q *queue)
+//@   prop -
+//@   trusted "constructor: assumed to build a cyclic list of size distinct ring nodes, i.e. to establish wf(q) with len 0 (not proved)"
+//@   requires size >= 1
+//@   ensures q != nil && fresh(q) && wf(q) && q.len == 0 && q.cap == size
